@@ -13,6 +13,7 @@ import GambitV.Gen.PyResultItem
 import GambitV.Gen.PyRefDb
 import GambitV.Gen.PyCalcFiles
 import GambitV.Gen.PyMetric
+import GambitV.Gen.PyBulk
 import GambitV.Model.Bulk
 import GambitV.Model.Indexing
 import GambitV.Spec.Taxonomy
@@ -147,5 +148,22 @@ def castArr (kind : Char) (size : Nat) (native : Bool) (real : String) : Option 
     | .raised e => "!" ++ e.name
     | .fuelOut => "!fuel"
   cmp "_cast_sigs_array" Gen.cast_sigs_array.untranslatable g real
+
+/-- dtype token `u4` / `i8` … -/
+def parseDType (s : String) : Option Py.DType :=
+  match s.toList with
+  | [k, d] => (String.toNat? (String.singleton d)).map (fun n => { kind := k, size := n, native := true })
+  | _ => none
+
+def mkArr (dt : Py.DType) (l : List Nat) : Py.Arr := { dtype := dt, vals := l.map (fun (x : Nat) => (x : Int)) }
+def mkSigs (kind : Nat) (dt : Py.DType) (ls : List (List Nat)) : Py.Sigs :=
+  { kind := kind, dtype := dt, items := ls.map (fun l => l.map (fun (x : Nat) => (x : Int))) }
+
+def ndStr (flat : Bool) (r : Py.Res Py.ND) : String :=
+  match r with
+  | .ok a => if flat then natsOf (a.vals1.map (·.toNat)) else
+      (if a.rows.isEmpty then "_" else natListsOf (a.rows.map (fun row => row.map (·.toNat))))
+  | .raised e => "!" ++ e.name
+  | .fuelOut => "!fuel"
 
 end Driver.PyGen
